@@ -88,14 +88,15 @@ impl Program {
     }
 
     pub fn link(&mut self) -> (Address, Arc<Vec<Error>>, Arc<Vec<Error>>) {
-        match self.link.last() {
-            Some(Opcode::End) => {}
-            _ => {
-                if let Err(error) = self.link.push(Opcode::End) {
-                    Arc::make_mut(&mut self.errors).push(error);
-                }
+        // A trailing End opcode may belong to an IF branch that is jumped over:
+        // if a label points past it the code still needs its own End.
+        let needs_end = !matches!(self.link.last(), Some(Opcode::End))
+            || self.link.has_symbol_at(self.link.len());
+        if needs_end {
+            if let Err(error) = self.link.push(Opcode::End) {
+                Arc::make_mut(&mut self.errors).push(error);
             }
-        };
+        }
         let mut link_errors = self.link.link();
         if self.errors.is_empty() {
             Arc::make_mut(&mut self.errors).append(&mut link_errors);
